@@ -22,14 +22,14 @@ RULE = ('one shard per (block, driver placement, enable source, #domains) design
         'the ungated twin\'s step) is compared on every wire and leaf attribute, under every permutation of the driver visit order')
 ASSUMPTIONS = ['the ungated twin (same construction code, no clockDriver assignment) defines "behaves exactly like ungated blocks"; '
                'the blocks\' own step function is checked separately in C09',
-               'enable wires are 1 bit wide']
+               'enable wires are 1 bit wide except in the "wide" designs (2-bit enable: any non-zero value enables)']
 BOUNDS = {'quick': 'blocks Reg(w=2), Counter(w=2), TReg, DelayLine(2), ClockSyncFSM; placements self/parent/grand/nested; enable from input / '
                    'from a register inside the gated domain / from a register in another domain; one or two gated domains',
           'thorough': 'same plus three-domain designs for the five small blocks, and width-2 DelayLine, Stack, SynchronousMemory under gating (one and two domains)'}
 
 BLOCKS = ['Reg', 'Counter', 'TReg', 'DelayLine', 'ClockSyncFSM']
-PLACES = ['self', 'parent', 'grand', 'nested']
-ENS = ['input', 'self', 'other']
+PLACES = ['self', 'parent', 'grand', 'nested', 'nestedbase']
+ENS = ['input', 'self', 'other', 'wide']
 
 
 def shards(tier):
@@ -115,8 +115,8 @@ def build(d, gated):
         dut, q = inst_block(g1, 'dut', d['block'], free, tag + 'dut')
         sib, qs = inst_block(g2, 'sib', d['block'], free, tag + 'sib')
         # enable source
-        en = hw.wire(tag + '_en')
-        if d['en'] == 'input':
+        en = hw.wire(tag + '_en', 2 if d['en'] == 'wide' else 1)
+        if d['en'] in ('input', 'wide'):
             free.append(en)
         elif d['en'] == 'self':
             # enable = (bit 0 of the gated block's own output) OR kick
@@ -132,7 +132,7 @@ def build(d, gated):
             holder = hw if k == 0 else c.prev_g1
             py4hw.Reg(holder, tag + '_enreg', x, en)
         drv = py4hw.ClockDriver('gclk' if d.get('samename') else tag + '_clk', base=hw.clockDriver, enable=en)
-        target = {'self': dut, 'parent': g1, 'grand': g2, 'nested': dut}[d['place']]
+        target = {'self': dut, 'parent': g1, 'grand': g2, 'nested': dut, 'nestedbase': dut}[d['place']]
         if gated:
             if d.get('late'):
                 c.late = getattr(c, 'late', []) + [(target, drv)]
@@ -140,10 +140,14 @@ def build(d, gated):
                 target.clockDriver = drv
         c.enables[tag] = en
         c.drv_target = target
-        if d['place'] == 'nested':
+        if d['place'] in ('nested', 'nestedbase'):
             en2 = hw.wire(tag + '_en_outer')
             free.append(en2)
             drv2 = py4hw.ClockDriver(tag + '_clk_outer', base=hw.clockDriver, enable=en2)
+            if d['place'] == 'nestedbase':
+                # the inner driver is derived from the outer gated one; a block still follows only the enable of its
+                # own (nearest) driver
+                drv.base = drv2
             if gated:
                 g2.clockDriver = drv2
             c.enables[tag + 'outer'] = en2
